@@ -374,6 +374,24 @@ def execute_orbit(ctx: RunCtx) -> None:
         state["out"] = out
         return out
 
+    # fault at the half-period seam: the event detection that turns the converged state into a period fails
+    from hiten.algorithms.corrector.interfaces import _OrbitCorrectionInterface
+    hp_fault = ds.flag("ofault.half_period_event_fails", 0.12)
+    real_create = _OrbitCorrectionInterface.create_problem
+
+    def create_with_faulty_event(self, **kw):
+        problem = real_create(self, **kw)
+        if not hp_fault:
+            return problem
+        real_event = problem.event_func
+
+        def failing_event(*a, **k):
+            ctx.fault("half_period_event_raises")
+            state["hp_fired"] = True
+            raise RuntimeError("injected: plane-crossing detection failed")
+        return dataclasses.replace(problem, event_func=failing_event)
+
+    _OrbitCorrectionInterface.create_problem = create_with_faulty_event
     _NB.run = run_with_faults
     try:
         try:
@@ -385,6 +403,10 @@ def execute_orbit(ctx: RunCtx) -> None:
             outcome = {"exc": type(e).__name__, "msg": str(e)[:200]}
     finally:
         _NB.run = real_run
+        _OrbitCorrectionInterface.create_problem = real_create
+    if state.get("hp_fired") and "exc" not in outcome:
+        raise Violation("C05/P1-half-period-fault-swallowed", f"{fam} orbit at {s} L{p}: the half-period event detection raised, yet correct() returned "
+                                                              f"(period {orbit.period}); a failed period computation must not be reported as success")
     inj = state.get("inj")
     fired = inj.fired if inj else []
     what = f"{fam} orbit at {s} L{p}, {an}={amp}, tol={tol:.0e}, max_attempts={max_attempts}"
